@@ -1,6 +1,7 @@
 (* C14 Cancellation safety. Statements only. *)
 Require Import Pearl.Base.Prelude Pearl.Storage.Model Pearl.Storage.Spec Pearl.Storage.Cancel Pearl.Storage.CancelProofs.
 
+Require Pearl.Generated.Facts.
 (* a write dropped while its append is in flight never disturbs other keys (any state, any record) *)
 Theorem C14_other_keys_untouched :
   forall (s : storage) (r : rec) (k : N),
@@ -21,5 +22,21 @@ Theorem C14_all_or_nothing_at_next_start_refuted :
   get_latest_entry (fst (run 4 c_cfg c_state [OClose; OOpen false; OClose; ORmIndex 0; OOpen false])) 2 None = Found c_rec.
 Proof. exact cancelled_write_surfaces_only_after_index_removal. Qed.
 
+(* ---- structural facts re-extracted from the Rust source on every run (tools/extract_src.py, Generated/Facts.v):
+   the orderings inside the code that the models used above assume. A change of the code that invalidates one turns
+   the generated boolean into `false` and this file no longer compiles. ---- *)
+(* restore_active_blob has no suspension point between taking the blob out and installing it *)
+Theorem C14_source_restore_is_atomic : Pearl.Generated.Facts.RESTORE_LOADS_BEFORE_POP = true.
+Proof. reflexivity. Qed.
+(* close_active_blob has no suspension point between taking the blob out and pushing it *)
+Theorem C14_source_close_is_atomic : Pearl.Generated.Facts.CLOSE_SYNCS_BEFORE_TAKE = true.
+Proof. reflexivity. Qed.
+(* a dropped index dump leaves the in-memory index as it was *)
+Theorem C14_source_dump_puts_headers_back : Pearl.Generated.Facts.DUMP_PUTS_HEADERS_BACK = true.
+Proof. reflexivity. Qed.
+
 Print Assumptions C14_other_keys_untouched.
 Print Assumptions C14_all_or_nothing_at_next_start_refuted.
+Print Assumptions C14_source_restore_is_atomic.
+Print Assumptions C14_source_close_is_atomic.
+Print Assumptions C14_source_dump_puts_headers_back.
